@@ -168,6 +168,22 @@ def fit_tilt_rule(chk, repo, clause):
                 bk.hi - bk.lo == C(2)
             piston_off = isinstance(bk, Slice) and (bk.lo == C(1) if not seg else (bk.lo - 1).const_value() is None
                                                     and nf.subst_value(bk.lo, {a: nf.ZERO for a in bk.lo.atoms()}) == C(1))
+            batch = _batched_spec(spec)
+            if batch is not None:
+                # all segments in one contraction ('sij,si->sj'): the operands are the rows lo:hi of every block of the
+                # (size, 3, npix) view of the basis and the entries lo':hi' of every row of the coefficient table
+                seg = True
+                full = Slice(nf.NONE, nf.NONE)
+                view = ba is not None and ba[0] == 'idx' and ba[1][0] == 'app' and ba[1][1] == 'm:reshape' and \
+                    list(ba[1][2][:3]) == [_pv, nf.attr(S('self'), 'size'), C(3)]
+                if batch and view and isinstance(bk, Tup) and len(bk) == 2 and bk.items[0] == full and isinstance(bk.items[1], Slice) \
+                        and isinstance(ck, Tup) and len(ck) == 2 and ck.items[0] == full and isinstance(cs, Slice):
+                    rows = bk.items[1]
+                    tilt_only = cs.lo == C(1) and cs.hi == C(3) and rows.hi is not nf.NONE and rows.lo is not nf.NONE and \
+                        isinstance(rows.hi, Poly) and isinstance(rows.lo, Poly) and rows.hi - rows.lo == C(2)
+                    piston_off = rows.lo == C(1)
+                else:
+                    tilt_only = piston_off = None
             tb = t.bound
             coef_base = Poly.atom(ca[1]) if ca else None
             xi = tb.get('x').single_atom() if isinstance(tb.get('x'), Poly) else None
@@ -178,12 +194,28 @@ def fit_tilt_rule(chk, repo, clause):
             rec = xi is not None and yi is not None and xi[0] == 'idx' and yi[0] == 'idx' and \
                 last(xi[2]) == C(1) and last(yi[2]) == C(2) and _same_var(xi[1], coef_var) and _same_var(yi[1], coef_var)
             label = 'segmented' if seg else 'monolithic'
-            chk.ob(clause, 'D-index', f.key, f'removes tip and tilt, not piston [{label}]', bool(tilt_only and piston_off),
+            chk.ob(clause, 'D-index', f.key, f'removes tip and tilt, not piston [{label}]',
+                   None if tilt_only is None else bool(tilt_only and piston_off),
                    f'OPD correction = einsum({fmt(spec)}, {fmt(basis)}, {fmt(coef)})', f.loc(e.node))
             chk.ob(clause, 'D-index', f.key, f'records Tilt(x=t[1], y=t[2]) of the same fit [{label}]', bool(rec),
                    f'Tilt(x={fmt(tb.get("x"))}, y={fmt(tb.get("y"))})', f.loc(t.node))
     if n < 2:
         raise AnalysisError(f'fit_tilt: only {n} of 2 branches recognised')
+
+
+def _batched_spec(spec):
+    """None for a two-operand contraction of one block ('ij,i->j'); True for the same contraction carried out for every
+    block at once ('sij,si->sj', any letters); False for any other contraction with a three-letter operand."""
+    if not (isinstance(spec, Const) and isinstance(spec.value, str)):
+        return None
+    txt = spec.value.replace(' ', '')
+    if '->' not in txt or txt.count(',') != 1:
+        return None
+    (a, b), out = txt.split('->')[0].split(','), txt.split('->')[1]
+    if len(a) < 3 and len(b) < 3:
+        return None
+    return len(a) == 3 and len(b) == 2 and len(out) == 2 and len(set(a)) == 3 and a[0] == b[0] == out[0] and a[1] == b[1] \
+        and a[2] == out[1]
 
 
 def _same_var(a, b):
